@@ -159,6 +159,10 @@ def check_decode(acc, codec, buf, cid, kind, witness_extra=None):
                 # declared larger than the frame: the frame was cut short (or a field garbled into an early "10=") - repaired in the
                 # repository; declared smaller: pinned by tests/test_codec.py::test_decode_custom_msg_type (listed finding)
                 key = "bodylength-not-verified" if decl < act else "bodylength-exceeds-frame-accepted"
+                # (the framer reports the first inconsistency it meets; a frame whose CheckSum is wrong as well is the graver case and
+                #  must not hide behind the listed BodyLength finding)
+                if k10 >= 0 and len(lex) == 3 and lex.isdigit() and int(lex) != sum(rb[:k10 + 1]) % 256:
+                    key = "accepts-wrong-checksum"
             elif s.startswith("CheckSum ") and "!= actual" in s:
                 key = "accepts-wrong-checksum"
             elif s.startswith(("third field is not MsgType", "fewer than 4 fields", "empty value for tag")):
